@@ -354,6 +354,14 @@ mat_rows = z3.Function("rows", Mat, z3.IntSort())
 mat_cols = z3.Function("cols", Mat, z3.IntSort())
 mat_el = z3.Function("el", Mat, z3.IntSort(), z3.IntSort(), z3.RealSort())
 mat_mm = z3.Function("mm", Mat, Mat, Mat)  # matrix product
+
+
+def mm(a, b):
+    """Matrix product term in CANONICAL (right-nested) association: (x y) b is built as x (y b).  Sound under A-REAL (matrix
+    multiplication over the reals is associative); makes proofs independent of how the code parenthesises a chain of products."""
+    if z3.is_app(a) and a.decl().eq(mat_mm):
+        return mm(a.arg(0), mm(a.arg(1), b))
+    return mat_mm(a, b)
 mat_T = z3.Function("T", Mat, Mat)
 mat_inv = z3.Function("inv", Mat, Mat)
 mat_add = z3.Function("add", Mat, Mat, Mat)  # numpy + (with broadcasting law on el)
